@@ -204,20 +204,23 @@ class ModuleInfo:
 
 
 class Repo:
-    def __init__(self, root: Path = None):
+    def __init__(self, root: Path = None, sources: dict = None):
         self.root = Path(root) if root else REPO
         self.modules = {}
         self.digest = hashlib.sha256()
         pkgdir = self.root / PKG
-        if not pkgdir.is_dir():
-            raise AnalysisError(f"package directory {pkgdir} not found")
-        for p in sorted(pkgdir.rglob("*.py")):
+        if sources is None:
+            if not pkgdir.is_dir():
+                raise AnalysisError(f"package directory {pkgdir} not found")
+            files = [(p, p.read_text()) for p in sorted(pkgdir.rglob("*.py"))]
+        else:
+            files = [(self.root / rel, src) for rel, src in sorted(sources.items())]
+        for p, src in files:
             rel = p.relative_to(self.root)
             parts = list(rel.with_suffix("").parts)
             if parts[-1] == "__init__":
                 parts = parts[:-1]
             name = ".".join(parts)
-            src = p.read_text()
             self.digest.update(str(rel).encode() + b"\0" + src.encode() + b"\0")
             try:
                 self.modules[name] = ModuleInfo(name, p, str(rel), src)
